@@ -17,7 +17,7 @@ import itertools
 import z3
 from pyvc.sym import SInt, SBool, ctx, lift, to_bterm, site
 from pyvc.nodes import band, bor, bnot, implies
-from pyvc.engine import Harness
+from pyvc.engine import Harness, NotRecognised
 from pyvc import symnd
 from .common import mk_variable
 
@@ -398,8 +398,13 @@ class SolveBuiltinH(Harness):
             return out
         theory, handed, _ = last
         idx = self._index_of(theory, st)
-        out.append(("builtin/statements-identify-the-nodes", idx is not None and len(handed) == 3))
-        if idx is None or len(handed) != 3:
+        if idx is None:
+            # the harness's own way of telling which statement belongs to which node (leaf bounds, child sets) does not apply
+            # to these statements: nothing can be stated -- out of reach, not a verdict
+            out.append(("builtin/statements-identify-the-nodes", NotRecognised("statements cannot be matched to the model's nodes by bounds / child sets")))
+            return out
+        out.append(("builtin/three-requests-handed-over", len(handed) == 3))
+        if len(handed) != 3:
             return out
         w = st["weights"]
         for q in (0, 1):
